@@ -12,6 +12,7 @@ verify_password honours because it reads the parameters from the string.
 import base64
 import hashlib
 import itertools
+import os
 import struct
 
 from mc import core
@@ -190,6 +191,59 @@ def work(arg):
         total += 1
         if Auth.verify_password(p, h2) is not True:
             flag(("verify", "verify_password(p, hash(p)) is not True (second hash)", h2), {"kind": "pairs", "password": p.hex()})
+    elif kind == "history":
+        # process history: the parent hashes `pre` times, then two children (forked processes - what a TaskPool worker
+        # is - or threads) each hash the same password k times; every salt ever produced is distinct
+        p, pre, mode, k = arg[1:]
+        hashes = [Auth.hash_password(p) for _ in range(pre)]
+        if mode == "fork":
+            pipes = []
+            for _child in range(2):
+                r, wr = os.pipe()
+                pid = os.fork()
+                if pid == 0:
+                    code = 0
+                    try:
+                        os.close(r)
+                        out = "\n".join(Auth.hash_password(p) for _ in range(k))
+                        os.write(wr, out.encode())
+                    except BaseException:
+                        code = 3
+                    finally:
+                        os._exit(code)
+                os.close(wr)
+                pipes.append((pid, r))
+            for pid, r in pipes:
+                buf = b""
+                while True:
+                    chunk = os.read(r, 65536)
+                    if not chunk:
+                        break
+                    buf += chunk
+                os.close(r)
+                os.waitpid(pid, 0)
+                hashes += [x for x in buf.decode().split("\n") if x]
+        else:
+            import threading
+            got = []
+            ths = [threading.Thread(target=lambda: got.extend(Auth.hash_password(p) for _ in range(k))) for _child in range(2)]
+            for t in ths:
+                t.start()
+            for t in ths:
+                t.join()
+            hashes += got
+        hashes += [Auth.hash_password(p)]
+        total += len(hashes)
+        counts.inc("history:%s" % mode, len(hashes))
+        salts = [denote(h)[7] if denote(h) is not None else None for h in hashes]
+        if len(hashes) != pre + 2 * k + 1 or None in salts or len(set(salts)) != len(salts):
+            flag(("fresh-salt", "hashes of one password made by a process and its %s share a salt" % ("forked children" if mode == "fork" else "threads"),
+                  "parent hashed %d time(s) first, two children %d time(s) each: salts %r" % (pre, k, [x.hex() if x else x for x in salts])),
+                 {"kind": "history", "password": p.hex(), "pre": pre, "mode": mode, "k": k})
+        for h in hashes:
+            total += 1
+            if Auth.verify_password(p, h) is not True:
+                flag(("verify", "verify_password(p, hash(p)) is not True for a hash made in a child", h), {"kind": "history", "password": p.hex(), "pre": pre, "mode": mode, "k": k})
     elif kind == "extra":
         p, q = arg[1], arg[2]
         h = Auth.hash_password(p)
@@ -237,6 +291,7 @@ def run(tier, seed):
     plist = passwords(tier)
     jobs = [("pairs", p, plist) for p in plist]
     jobs += [("extra", p, q) for p, q in extra_pairs()]
+    jobs += [("history", pw, pre, mode, k) for pw in (b"pw", b"") for pre in (0, 1, 2, 3) for mode in ("fork", "thread") for k in (1, 2)]
     n = 8
     for pw, salt in ((b"correct horse", b"S" * 16), (b"", bytes(range(16))), (b"\x00\xff", b"\xff" * 16)):
         jobs += [("corrupt", pw, salt, False, k, n) for k in range(n)]
@@ -261,7 +316,7 @@ def run(tier, seed):
     rep.coverage = {
         "evaluations": total, "distinct_nontrivial": sum(v for k, v in classes.items() if not k.endswith("raises-ValueError/TypeError")),
         "rule": "passwords: all %d byte strings over {a,b,NUL} of length<=%d, ALL ordered pairs (p,q) against hash(p), two hashes each; %d near-identical/long pairs; "
-                "corruptions: every truncation, field removal/duplication/emptying, per-character replacement/deletion/insertion/non-base64 substitution, parameter/method/version edits of 3 cheap-parameter "
+                "process histories: parent hashes 0-3 times, then two forked children / two threads hash 1-2 times each, all salts distinct; corruptions: every truncation, field removal/duplication/emptying, per-character replacement/deletion/insertion/non-base64 substitution, parameter/method/version edits of 3 cheap-parameter "
                 "hash strings (reference encoder) and a thinned set on one real hash. non-trivial = evaluations whose outcome was not an immediate ValueError/TypeError" % (
                     len(plist), 2 if tier == "quick" else 3, len(extra_pairs())),
         "outcomes": dict(summary), "exhaustive": True,
@@ -278,6 +333,9 @@ def replay(witness):
         pw = bytes.fromhex(witness["password"])
         cls, bad = judge_corrupt(pw, witness["hash"], witness["label"], witness["string"])
         return [core.Violation(bad[0], bad[1], witness, bad[2])] if bad else []
+    if witness.get("kind") == "history":
+        t, c, viols = work(("history", bytes.fromhex(witness["password"]), witness["pre"], witness["mode"], witness["k"]))
+        return [core.Violation(o, sg, witness, v[2]) for (o, sg), v in viols.items()]
     if witness.get("kind") == "pairs":
         p = bytes.fromhex(witness["password"])
         q = bytes.fromhex(witness.get("guess", witness["password"]))
